@@ -445,8 +445,18 @@ def _import_split_operators(expr):
     """
     from sympy import Dummy, KroneckerDelta as SympyKroneckerDelta
 
-    sub = {s: Index(s.name, **s.assumptions0) for s in expr.atoms(Dummy)
-           if not isinstance(s, Index)}
+    sub = {}
+    for s in expr.atoms(Dummy):
+        if isinstance(s, Index):
+            continue
+        # use generic indices from the registry (unique names)
+        if s.assumptions0.get("below_fermi"):
+            new = Indices().get_generic_indices(occ=1)[("occ", "")][0]
+        elif s.assumptions0.get("above_fermi"):
+            new = Indices().get_generic_indices(virt=1)[("virt", "")][0]
+        else:
+            new = Indices().get_generic_indices(general=1)[("general", "")][0]
+        sub[s] = new
     if sub:
         expr = expr.xreplace(sub)
     return expr.replace(SympyKroneckerDelta, KroneckerDelta)
@@ -503,16 +513,21 @@ def _contraction(p, q):
         elif space_p == "v" or space_q == "v":
             return KroneckerDelta(p_idx, q_idx)
         else:
+            # use a generic index from the registry: an index that is not
+            # known to the registry but shares its name with a registered
+            # index is not distinguishable in the printed result.
+            virt = Indices().get_generic_indices(virt=1)[("virt", "")][0]
             return (KroneckerDelta(p_idx, q_idx) *
-                    KroneckerDelta(q_idx, Index('a', above_fermi=True)))
+                    KroneckerDelta(q_idx, virt))
     elif isinstance(p, Fd) and isinstance(q, F):
         if space_p == "v" or space_q == "v":
             return S.Zero
         elif space_p == "o" or space_q == "o":
             return KroneckerDelta(p_idx, q_idx)
         else:
+            occ = Indices().get_generic_indices(occ=1)[("occ", "")][0]
             return (KroneckerDelta(p_idx, q_idx) *
-                    KroneckerDelta(q_idx, Index('i', below_fermi=True)))
+                    KroneckerDelta(q_idx, occ))
     else:  # vanish if 2xAnnihilator or 2xCreator
         return S.Zero
 
